@@ -166,7 +166,7 @@ def run(ctx):
     # 1. the property on the state machine, exhaustively (in the quick tier concurrently with the bindings)
     def check_sm(cfgs):
         for cfg in cfgs:
-            r = ctx.tlc("partitionring", "MC_PartitionRing", cfg=cfg + ".cfg", workers=W, timeout=2400 if not quick else 900,
+            r = ctx.tlc("partitionring", "MC_PartitionRing", cfg=cfg + ".cfg", workers=W, timeout=3600 if not quick else 900,
                         coverage=(not quick and cfg == "MC_sm_cov"), deadlock=False)
             ctx.require_tlc_ok(r, cfg)
             if r.coverage_zero:
